@@ -3,6 +3,7 @@ import Driver.C01
 import Driver.C02
 import Driver.C12Mon
 import Driver.Flow
+import Driver.C19
 open Kv
 
 structure DState where
@@ -18,6 +19,7 @@ def dispatch (st : DState) (prop : String) (l : Line) : DState × String :=
   | "C12" => (st, Drv.C12.step l)
   | "C04" => let (s, r) := Drv.Flow.step "C04" st.c04 l; ({ st with c04 := s }, r)
   | "C07" => let (s, r) := Drv.Flow.step "C07" st.c07 l; ({ st with c07 := s }, r)
+  | "C19" => (st, Drv.C19.step l)
   | _ => (st, "bad-op")
 
 def main : IO Unit := driverMain dispatch {}
